@@ -128,9 +128,10 @@ class Ref:
 
 
 class Closure:
-    def __init__(self, key, env):
+    def __init__(self, key, env, inst=None):
         self.key = key
         self.env = env
+        self.inst = inst
 
     def __repr__(self):
         return "<closure %s>" % self.key.rsplit("::", 2)[-2:]
@@ -397,9 +398,13 @@ class Interp:
         self.log.append(tuple(event))
 
     # ---- functions ----------------------------------------------------------------------------
-    def call_item(self, item, args):
-        """Evaluate a local function / closure body on argument values."""
+    def call_item(self, item, args, inst=None):
+        """Evaluate a local function / closure body on argument values.  `inst`: monomorphic instance
+        id (calls inside are then dispatched through rustc's own resolution for that instance); when
+        omitted and the function has exactly one instance in the crate, that one is used."""
         key = item.key if hasattr(item, "key") else item
+        if inst is None:
+            inst = self.F.default_instance(key)
         body = self.F.bodies.get(key)
         if body is None or not body.get("thir"):
             return self.top("no THIR body for %s" % key)
@@ -410,7 +415,7 @@ class Interp:
         params = thir["params"]
         if len(params) != len(args):
             return self.top("arity mismatch calling %s: %d params, %d args" % (key, len(params), len(args)))
-        fr = Frame(self, key, thir, env)
+        fr = Frame(self, key, thir, env, inst)
         for p, a in zip(params, args):
             if p["pat"] is None:
                 continue
@@ -434,7 +439,7 @@ class Interp:
         if self.depth >= self.max_depth + 4:
             return self.top("inlining depth exceeded at closure %s" % clo.key)
         env = dict(clo.env)  # captured variables are shared cells; new bindings are local
-        fr = Frame(self, clo.key, thir, env)
+        fr = Frame(self, clo.key, thir, env, clo.inst)
         params = thir["params"][1:]
         if len(params) != len(args):
             return self.top("closure arity mismatch %s: %d params, %d args" % (clo.key, len(params), len(args)))
@@ -496,6 +501,29 @@ class Interp:
                     return sel[0]
         return None
 
+    def call_mono(self, fn, args, expr):
+        """Dispatch through the monomorphic call table (exact: rustc resolved the callee)."""
+        F = self.F
+        for which in ("mono_via", "mono"):
+            cid = fn.get(which)
+            if cid is None:
+                continue
+            ci = F.instances[cid]
+            if ci["local"] and ci["def"] in F.bodies and ci["kind"] == "item":
+                item = F.items[ci["def"]]
+                st = self.rule_stubs.get(item.qname)
+                if st is not None:
+                    return st(self, args, fn, expr)
+                if item.qname in self.no_inline:
+                    self.emit("call", item.qname, [summary(a) for a in args])
+                    return Sym("ret:%s" % item.qname, expr["ty"] if expr else None)
+                if item.expn and fn["path"] in self.models:
+                    return self.models[fn["path"]](self, args, fn, expr)
+                return self.call_item(item, args, inst=cid)
+            if which == "mono_via" and not ci["local"]:
+                continue
+        return NotImplemented
+
     def dispatch_local_trait(self, trait, name, args):
         recv = strip(args[0]) if args else None
         if isinstance(recv, Adt):
@@ -514,6 +542,10 @@ class Interp:
         if fn.get("ctor"):
             c = fn["ctor"]
             return Adt(c["adt"], c["variant"], {str(i): a for i, a in enumerate(args)})
+        if fn.get("mono") is not None:
+            r = self.call_mono(fn, args, expr)
+            if r is not NotImplemented:
+                return r
         vk = fn.get("via_from_key")
         if vk and vk in self.F.bodies:
             item = self.F.items[vk]
@@ -573,8 +605,9 @@ def fresh_for_type(interp, name, tyix):
 
 
 class Frame:
-    def __init__(self, interp, key, thir, env):
+    def __init__(self, interp, key, thir, env, inst=None):
         self.I = interp
+        self.inst = inst
         self.key = key
         self.thir = thir
         self.exprs = thir["exprs"]
@@ -594,6 +627,23 @@ class Frame:
         self.I.fuel -= 1
         if self.I.fuel <= 0:
             raise Abort("fuel exhausted in %s" % self.key)
+
+    def mono_fn(self, e):
+        """The expression's function reference, annotated with the callee instance that rustc resolved
+        for the current monomorphic instance (if any)."""
+        fn = e.get("fn")
+        if fn is None or self.inst is None:
+            return fn
+        per = self.I.F.inst_calls.get(self.inst)
+        if not per:
+            return fn
+        ent = per.get(self.key, {}).get(e["_ix"])
+        if ent is None:
+            return fn
+        fn2 = dict(fn)
+        fn2["mono"] = ent[0]
+        fn2["mono_via"] = ent[1]
+        return fn2
 
     # ---- places -------------------------------------------------------------------------------
     def place(self, eid):
@@ -886,13 +936,13 @@ class Frame:
 
     def e_ZstLiteral(self, e):
         if "fn" in e:
-            return FnRef(e["fn"])
+            return FnRef(self.mono_fn(e))
         t = self.I.F.types[e["ty"]]
         if t.get("k") == "adt":
             a = self.I.F.adts.get(t["adt"])
             return Adt(t["adt"], a["variants"][0]["name"] if a else "?", {})
         if t.get("k") == "closure":
-            return Closure(t["fnkey"], self.env)
+            return Closure(t["fnkey"], self.env, self.inst)
         return Sym("zst:%s" % t.get("s"), e["ty"])
 
     def e_NamedConst(self, e):
@@ -939,7 +989,7 @@ class Frame:
         return Adt(e["adt"], e["variant"], fields)
 
     def e_Closure(self, e):
-        return Closure(e["closure"], self.env)
+        return Closure(e["closure"], self.env, self.inst)
 
     def e_Block(self, e):
         b = self.thir["blocks"][e["block"]]
@@ -1115,7 +1165,7 @@ class Frame:
         return k
 
     def e_Call(self, e):
-        fn = e.get("fn")
+        fn = self.mono_fn(e)
         args = [self.eval(a) for a in e["args"]]
         if fn is None:
             f = self.eval(e["fun"])
